@@ -14,6 +14,7 @@ re-execution, feasibility decided by z3).
 from __future__ import annotations
 
 import itertools
+import sys
 import time
 from fractions import Fraction
 from typing import Any, Callable, Dict, List, Optional, Tuple
@@ -532,8 +533,13 @@ class SymInt:
         return f'SymInt({self.t})'
 
     def __hash__(self):
-        if engine().hash_mode == 'realise':
+        eng = engine()
+        if eng.hash_mode == 'realise':
             return hash(int(self))
+        if eng.realise_sites:
+            f = sys._getframe(1)
+            if (f.f_code.co_filename, f.f_lineno) in eng.realise_sites:
+                return hash(int(self))
         return _SYM_HASH
 
     def __bool__(self):
@@ -985,6 +991,10 @@ class Engine:
         # 'const': symbolic ints hash alike (symbolic coordinates as dict keys, equality forks);
         # 'realise': hashing an int enumerates its feasible values (lookup in concrete-key dicts)
         self.hash_mode = 'const'
+        self.model = None
+        # (file, line) sites where hashing a symbolic int must realise it (lookup in a dict with
+        # concrete keys); learnt automatically from KeyErrors raised with a symbolic key
+        self.realise_sites: set = set()
 
     # -- session
     def __enter__(self):
@@ -1059,6 +1069,7 @@ class Engine:
         self.pos = 0
         self.pc = []
         self.log = []
+        self.model = None
         self._path_fresh = itertools.count()
         self.solver.reset()
         self.solver.set('timeout', self.timeout_ms)
@@ -1081,12 +1092,21 @@ class Engine:
         if z3.is_false(ts):
             raise Abort()
         self._push(t)
-        self.stats.branch_queries += 1
-        r = self._check()
-        if r == z3.unsat:
-            raise Abort()
-        if r == z3.unknown:
-            raise Inconclusive(f'assume: solver unknown ({self.solver.reason_unknown()})')
+        self.model = None
+        self._model()
+
+    def _model(self):
+        """A model of the current path condition (cached while the path only takes the sides the
+        model satisfies)."""
+        if self.model is None:
+            self.stats.branch_queries += 1
+            r = self._check()
+            if r == z3.unknown:
+                raise Inconclusive(f'solver unknown ({self.solver.reason_unknown()})')
+            if r == z3.unsat:
+                raise Abort()
+            self.model = self.solver.model()
+        return self.model
 
     def branch(self, t) -> bool:
         ts = z3.simplify(t)
@@ -1101,27 +1121,29 @@ class Engine:
             self.pos += 1
             if kind == 'b':
                 self._push(t if val else z3.Not(t))
+                self.model = None
             return val
         if self.pos >= self.max_decisions:
             raise Inconclusive('max decisions per path')
-        self.stats.branch_queries += 2
-        rt = self._check(t)
-        rf = self._check(z3.Not(t))
-        if rt == z3.unknown or rf == z3.unknown:
+        # side taken by the cached model first: it stays a model of the extended path condition
+        m = self._model()
+        side = z3.is_true(m.eval(t, model_completion=True))
+        other = z3.Not(t) if side else t
+        self.stats.branch_queries += 1
+        ro = self._check(other)
+        if ro == z3.unknown:
             raise Inconclusive(f'branch: solver unknown ({self.solver.reason_unknown()})')
-        if rt == z3.sat and rf == z3.sat:
-            self.work.append(self.prefix[:self.pos] + [('b', False)])
-            self.prefix = self.prefix[:self.pos] + [('b', True)]
+        if ro == z3.sat:
+            self.work.append(self.prefix[:self.pos] + [('b', not side)])
+            self.prefix = self.prefix[:self.pos] + [('b', side)]
             self.pos += 1
-            self._push(t)
-            return True
-        if rt == z3.sat or rf == z3.sat:
-            # implied by the path condition: recorded so that replays stay aligned, nothing pushed
-            val = (rt == z3.sat)
-            self.prefix = self.prefix[:self.pos] + [('i', val)]
-            self.pos += 1
-            return val
-        raise Abort()   # path condition itself infeasible
+            self.pc.append(t if side else z3.Not(t))
+            self.solver.add(t if side else z3.Not(t))
+            return side
+        # implied by the path condition: recorded so that replays stay aligned, nothing pushed
+        self.prefix = self.prefix[:self.pos] + [('i', side)]
+        self.pos += 1
+        return side
 
     def realise_int(self, t) -> int:
         """Fork over the feasible concrete values of an Int term (bounded, counted)."""
@@ -1133,6 +1155,7 @@ class Engine:
             if kind == 'v':
                 self.pos += 1
                 self._push(t == val)
+                self.model = None
                 return val
             if kind != 'nv':
                 raise HarnessError('non-deterministic replay of path prefix (expected realise)')
@@ -1157,6 +1180,7 @@ class Engine:
         for e in excluded:
             self.pc.append(t != e)
         self._push(t == v)
+        self.model = None
         self.stats.realised.append(str(t)[:60])
         return v
 
@@ -1166,6 +1190,7 @@ class Engine:
     def sqrt(self, x: SymReal) -> SymReal:
         s = z3.Real(self.path_name('sqrt'))
         self._push(z3.And(s >= 0, s * s == x.t))
+        self.model = None
         return SymReal(s)
 
     # -- exploration
@@ -1178,6 +1203,7 @@ class Engine:
                 self.stats.inconclusive.append(f'{self.name}: max paths {self.max_paths}')
                 raise Inconclusive('max paths')
             self._start_path(prefix)
+            w0 = len(self.work)
             if self._check() != z3.sat:
                 continue
             try:
@@ -1185,6 +1211,22 @@ class Engine:
                 exc = None
             except Abort:
                 continue
+            except KeyError as e:
+                key = e.args[0] if e.args else None
+                site = None
+                if isinstance(key, (SymInt, Bit)) and self.hash_mode == 'const':
+                    tb = e.__traceback__
+                    while tb.tb_next is not None:
+                        tb = tb.tb_next
+                    site = (tb.tb_frame.f_code.co_filename, tb.tb_lineno)
+                if site is not None and site not in self.realise_sites:
+                    # lookup of a symbolic int in a dict with concrete keys: realise at this site
+                    self.realise_sites.add(site)
+                    self.stats.realised.append(f'hash site {site[0].split("/")[-1]}:{site[1]}')
+                    del self.work[w0:]          # alternatives queued by the abandoned run
+                    self.work.append(list(prefix))
+                    continue
+                v, exc = None, e
             except catch as e:   # exceptions raised by the code under test are path results
                 if isinstance(e, HarnessError):
                     raise
